@@ -226,17 +226,18 @@ def stream_cases(rnd, n, tmp):
     import contextlib
     from flow.record.base import ignore_fields_for_comparison
 
-    seqs = gen.fixed_streams() + gen.sample_streams(rnd, n, (1, 9))
+    seqs = gen.fixed_streams() + gen.churn_streams() + gen.sample_streams(rnd, n, (1, 9))
     nfixed = len(gen.fixed_streams())
     for si, recs0 in enumerate(seqs):
         # every third sequence contains a write that FAILS while packing the first record of a new type (its descriptor
         # has already been announced), followed by good records of that type: the failed record is not part of what was written
         plan = [(r, True) for r in recs0]
+        lazy = any(callable(r) for r in recs0)
         if si % 3 == 0 and si >= nfixed:
             k = rnd.randint(0, len(plan))
             plan[k:k] = [(P([{"a": {1, 2}}], "bad", _generated=gen.GEN), False), (P([{"a": 1}], "good1", _generated=gen.GEN), True)]
             plan.append((P([], "good2", _generated=gen.GEN), True))
-        recs = [r for r, ok in plan if ok]
+        recs = [r for r, ok in plan if ok and not callable(r)]
         written = [obs_key(r) for r in recs]
         # "+ignore": the same, written and read while a comparison-ignore setting is active (a de-duplicating copy loop):
         # an option of record COMPARISON must not reach the encoding
@@ -250,6 +251,30 @@ def stream_cases(rnd, n, tmp):
     return cases
 
 
+def _descs_resolve(node, rec, latest):
+    """does every identifier of the decoded frame resolve (through `latest`) to the descriptor of the corresponding record?"""
+    import flow.record.base as B
+
+    if node[0] == "GRP":
+        ms = rec.records if isinstance(rec, B.GroupedRecord) else []
+        return len(ms) == len(node[2]) and all(_descs_resolve(m, r, latest) for m, r in zip(node[2], ms))
+    if isinstance(rec, B.GroupedRecord) or not isinstance(rec, B.Record):
+        return False
+    ident = node[1]
+    key = (str(ident[0]), ident[1]) if isinstance(ident, tuple) and len(ident) == 2 else None
+    want = (rec._desc.name, tuple(tuple(x) for x in rec._desc.get_field_tuples()))
+    if key is None or latest.get(key) != want:
+        return False
+    ok = True
+    for (t, n), val in zip(rec._desc.get_field_tuples(), node[2]):
+        v = getattr(rec, n)
+        if isinstance(v, B.Record) and isinstance(val, tuple) and val and val[0] in ("REC", "GRP"):
+            ok &= _descs_resolve(val, v, latest)
+        elif isinstance(v, list) and v and all(isinstance(x, B.Record) for x in v) and isinstance(val, tuple):
+            ok &= len(val) == len(v) and all(_descs_resolve(a, b, latest) for a, b in zip(val, v))
+    return ok
+
+
 def _stream_case(via, via0, plan, recs, written, tmp, intent=None):
     from flow.record import RecordReader, RecordStreamReader, RecordStreamWriter, RecordWriter
 
@@ -257,12 +282,16 @@ def _stream_case(via, via0, plan, recs, written, tmp, intent=None):
         if True:
             c = {"kind": "stream", "via": via0, "modelled": True, "n_written": len(recs), "n_read": -1, "order_ok": False, "all_identical": False, "frames": [], "hash_ok": False, "ref_decode_ok": False, "exc": "none",
                  "T": "varint", "islist": False, "cs": ["none"]}
+            made = []
             try:
                 if via == "lowlevel":
                     b = io.BytesIO()
                     w = RecordStreamWriter(b)
                     for r, ok in plan:
                         try:
+                            if callable(r):          # created only now, written at once, and not kept by the caller
+                                r = r()
+                                made.append(r)
                             w.write(r)
                         except Exception:
                             if ok:
@@ -275,6 +304,9 @@ def _stream_case(via, via0, plan, recs, written, tmp, intent=None):
                     with RecordWriter(p) as w:
                         for r, ok in plan:
                             try:
+                                if callable(r):
+                                    r = r()
+                                    made.append(r)
                                 w.write(r)
                             except Exception:
                                 if ok:
@@ -284,6 +316,10 @@ def _stream_case(via, via0, plan, recs, written, tmp, intent=None):
 
                     data = gzip.decompress(raw) if via == "pathgz" else raw
                     back = list(RecordReader(p))
+                if made:
+                    recs = made
+                    written = [obs_key(r) for r in made]
+                    c["n_written"] = len(made)
                 got = [obs_key(r) for r in back]
                 c["n_read"] = len(back)
                 c["order_ok"] = not (sorted(got) == sorted(written) and got != written)
@@ -324,6 +360,15 @@ def _stream_case(via, via0, plan, recs, written, tmp, intent=None):
                 c["hash_ok"] = bool(ok)
                 recframes = [d for d in dec if d[0] in ("REC", "GRP")]
                 c["ref_decode_ok"] = len(recframes) == len(recs) and all(repr_eq(f, canon(r)) for f, r in zip(recframes, recs))
+                # an independent reader resolves every identifier a record frame carries to the LATEST definition in front
+                # of it: that definition must be the descriptor (name, ordered fields) the record was created with
+                latest, ri = {}, 0
+                for d in dec:
+                    if d[0] == "DESC":
+                        latest[(d[1], rc.descriptor_hash(d[1], d[2]))] = (d[1], tuple(tuple(x) for x in d[2]))
+                    elif d[0] in ("REC", "GRP") and ri < len(recs):
+                        c["ref_decode_ok"] &= _descs_resolve(d, recs[ri], latest)
+                        ri += 1
             except Exception as e:
                 c["exc2"] = type(e).__name__ + ":" + str(e)[:80]
             return c
